@@ -946,7 +946,13 @@ func pgpOracle(stream []byte) (oracle SL, possiblyUnmodelled bool) {
 	var primary, sub *rawKey
 	var primaryBody, subBody, uid []byte
 	haveUid := false
-	for i, p := range pkts {
+	first := true // no packet that Reader.Next returns has been seen yet (unknown types are skipped)
+	for _, p := range pkts {
+		isFirst := first
+		switch p.tag {
+		case 2, 5, 6, 7, 13, 14:
+			first = false
+		}
 		switch p.tag {
 		case 1, 3, 4, 8, 9, 11, 17, 18:
 			possiblyUnmodelled = true
@@ -961,7 +967,7 @@ func pgpOracle(stream []byte) (oracle SL, possiblyUnmodelled bool) {
 				}
 				ob.addKey(&k, p.body, p.tag == 5 || p.tag == 7)
 			}
-			if i == 0 {
+			if isFirst {
 				if ok {
 					primary, primaryBody = &k, p.body
 				}
